@@ -366,6 +366,15 @@
 		call $heap_alignment8
 		local.set $size
 
+		;; 0字节的申请按最小块(8字节)处理: 否则在关闭 fixed 策略时,
+		;; 变长空闲链表的头节点(size=0)会被当作可用块摘下并返回, 链表环被破坏
+		local.get $size
+		i32.eqz
+		if
+			i32.const 8
+			local.set $size
+		end
+
 		;; 根据大小返回对应空闲链表的地址
 		;; 并返回对齐到8字节的大小
 		;; $free_list, $size = $heap_free_list_header.ptr_and_fixed_size(size)
